@@ -3,7 +3,7 @@
    stay the extracted inductive types. *)
 From Coq Require Import Extraction ExtrOcamlBasic.
 From Coq Require Import ZArith NArith List.
-From StarV Require Import Params Bytes Keccak Strobe Fp PolyDefs Shamir Adss Star Ggm Wasm Scenario.
+From StarV Require Import Params Bytes Keccak Strobe Fp PolyDefs Shamir Adss Star Ggm Wasm Ppoprf Scenario.
 Extraction Language OCaml.
 Extraction "../ocaml/model.ml"
   N.of_nat N.to_nat Z.of_N Z.to_N N.add N.mul Nat.add Nat.mul
@@ -20,4 +20,7 @@ Extraction "../ocaml/model.ml"
   Scenario.sharks_deal Scenario.decode_shares Scenario.adss_shares Scenario.adss_recover Scenario.adss_coeffs
   Ggm.ginit Ggm.input_bits Scenario.ggm_run Scenario.ggm_step
   Wasm.b64_encode Wasm.b64_decode Scenario.wasm_create Scenario.wasm_group Scenario.agg_run
+  Ppoprf.sc_of_bytes Ppoprf.sc_to_bytes Ppoprf.sc_canonical Ppoprf.sc_inv Ppoprf.pk_to_bincode Ppoprf.pk_from_bincode
+  Ppoprf.proof_to_bincode Ppoprf.proof_from_bincode Ppoprf.client_unblind Ppoprf.combined_pk
+  Scenario.srv_run Scenario.srv_step Scenario.pp_server_new Scenario.pp_client_blind Scenario.pp_client_finalize Scenario.pp_client_verify Scenario.pp_hash_to_group
   Scenario.star_scenario Scenario.star_recover_from Scenario.star_derive.
